@@ -23,8 +23,10 @@ EXTRA = ["payload", "identity", "ismsm", "_immutable", "_payload", "_payloadi", 
 
 def jobs(tier, seed):
     ids = [i for i in structs.all_identities() if structs.wellformed(i)]
-    out = [('defined', i, tier) for i in ids]
-    out += [('unknown', n, tier) for n in (4072, 1070, 999, 4095)] + [('unknown4076', 250, tier), ('unknown4076', 28, tier)]
+    out = []
+    for part in ('names', 'sym'):       # concrete-name plans first: cheap, and their counterexamples return early
+        out += [('defined', i, tier, part) for i in ids]
+        out += [('unknown', n, tier, part) for n in (4072, 1070, 999, 4095)] + [('unknown4076', 250, tier, part), ('unknown4076', 28, tier, part)]
     return out
 
 
@@ -63,7 +65,7 @@ def attempt(m, name, value):
     return "assignment was accepted"
 
 
-def run_msg(build, label, tier, res, is_unknown=False):
+def run_msg(build, label, tier, res, is_unknown=False, part='names'):
     from pyrtcm.rtcmmessage import RTCMMessage
     # names present on one concrete-structure instance (the attribute set does not depend on the symbolic bits in directed mode)
     eng0 = sym.Engine(max_paths=4, conc_limit=4)
@@ -84,10 +86,12 @@ def run_msg(build, label, tier, res, is_unknown=False):
     allnames = names + [n for n in EXTRA if n not in names]
     values = [('sym', None), ('c', 0.0), ('c', b"x"), ('c', None), ('c', "N/A")]
     lens = (1, 2, 3, 4) if tier == 'quick' else (1, 2, 3, 4, 5, 6, 8)
-    plans = [('names', allnames)] + [('symname', n) for n in lens]
+    plans = [('names', allnames)] if part == 'names' else [('symname', n) for n in lens]
     for plan in plans:
         eng = sym.Engine(max_paths=600, conc_limit=8)
-        eng.time_budget = 120
+        eng.time_budget = 120 if part == 'names' else 40
+        if part != 'names':
+            eng.query_timeout_ms = 10000
         H = {}
 
         def fn():
@@ -169,7 +173,7 @@ def run_msg(build, label, tier, res, is_unknown=False):
                                        'dedup': f"{label[:4]}:{why[:30]}:{'priv' if cname.startswith('_') else 'pub'}"})
             res.count('attempt_paths')
         res.absorb_engine(eng)
-    if len(res['witnesses']) < 2:
+    if len(res['witnesses']) < 2 and part == 'names':
         eng = sym.Engine(max_paths=2)
         for path in eng.explore(fn0):
             if path.kind == 'ret' and eng.check3() == 'sat':
@@ -190,7 +194,7 @@ def run_job(spec):
         st = dict(nsat=1, nsig=1, cellmask='ones', maskmode='value', seed=5) if k == 'msm' else dict(harm=(0, 1, 0)) if k == 'harm' else \
             dict(flags=3) if k == 'flags' else dict(mode=('uniform', 1))
         d = msgdrv.Directed(ident, structs.chooser(st), spare=0)
-        run_msg(lambda eng: msgdrv.Directed(ident, structs.chooser(st), spare=0).build(eng), ident, spec[2], res)
+        run_msg(lambda eng: msgdrv.Directed(ident, structs.chooser(st), spare=0).build(eng), ident, spec[2], res, part=spec[3])
     elif kind == 'unknown':
         num = spec[1]
 
@@ -198,7 +202,7 @@ def run_job(spec):
             p = sym.symbytes("p", 5)
             eng.assume(msgdrv.fterm(p.term(), 40, 0, 12) == num)
             return p
-        run_msg(build, str(num), spec[2], res, True)
+        run_msg(build, str(num), spec[2], res, True, part=spec[3])
     else:
         sub = spec[1]
 
@@ -207,7 +211,7 @@ def run_job(spec):
             eng.assume(msgdrv.fterm(p.term(), 48, 0, 12) == 4076)
             eng.assume(msgdrv.fterm(p.term(), 48, 15, 8) == sub)
             return p
-        run_msg(build, f"4076_{sub:03d}", spec[2], res, True)
+        run_msg(build, f"4076_{sub:03d}", spec[2], res, True, part=spec[3])
     res['samples'].append({'job': [str(x) for x in spec], 'attempt_paths': res['counters'].get('attempt_paths', 0)})
     return res
 
